@@ -426,6 +426,16 @@ def audit_cases():
         TC = [{"num": na, "name": None, "pairs": [[0, "Drawing"], [1, "Label"]]}, {"num": nb, "name": None, "pairs": [[0, "Drawing"], [1, "Label"]]}]
         lib("aud_layers_congruent", [lay("c0", [el(R(0, 0, 10, 6), "a", 0), el(R(2, 1, 6, 4), None, 1), el({"P": [[[0, 3], [10, 3]], 2]}, None, 1)])], layers=TC)
         lib("aud_layers_congruent", [lay("c0", [el(R(0, 0, 10, 6), "a", 0), el(R(0, 0, 10, 6), "b", 1)])], layers=TC)
+    # 2c. (fourth seeded wave, C07-m10) named shapes of DIFFERENT nets on one layer, one inside the other, in both listing orders and three
+    # deep: the label of the inner shape lies inside the outer one too; which label a shape keeps is decided by the order of the labels
+    for order in ((0, 1), (1, 0)):
+        two = [el(R(0, 0, 100, 100), "vdd", 0), el(R(60, 60, 20, 20), "vss", 0)]
+        lib("aud_nested_nets", [lay("c0", [two[i] for i in order])])
+        lib("aud_nested_nets", [lay("c0", [two[i] for i in order] + [el(R(200, 0, 10, 10), "x", 0)]), lay("top", [el(R(0, 0, 50, 50), "a", 0), el(R(30, 30, 10, 10), "b", 0)], [inst(0, (500, 0))])])
+    three = [el(R(0, 0, 90, 90), "n1", 0), el(R(50, 50, 30, 30), "n2", 0), el(R(60, 60, 4, 4), "n3", 0)]
+    for perm in ((0, 1, 2), (0, 2, 1), (1, 0, 2), (2, 1, 0)):
+        lib("aud_nested_nets", [lay("c0", [three[i] for i in perm])])
+    lib("aud_nested_nets", [lay("c0", [el({"G": [[0, 0], [80, 0], [80, 80], [0, 80]]}, "p", 0), el({"P": [[[50, 50], [70, 50]], 4]}, "q", 0), el(R(10, 10, 6, 6), None, 0)])])
     # 3. named polygons spanning most of the i32 range (Polygon::contains multiplies coordinate differences: 2^32 * 2^32)
     B = 2000000000
     for P in ([[-B, -B], [B, -B], [B, -B + 10], [-B + 10, -B + 10], [-B + 10, B], [-B, B]],                                  # L, centre outside
